@@ -166,8 +166,17 @@ func (h *Handler) Handle(cx *layer4.Connection, next layer4.Handler) error {
 	// Set conn as a custom variable on cx.
 	cx.SetVar("l4.proxy_protocol.conn", conn)
 
-	return next.Handle(cx.Wrap(conn))
+	return next.Handle(cx.Wrap(halfCloser{Conn: conn, under: cx}))
 }
+
+// halfCloser lets a half-close pass through the PROXY protocol connection,
+// which does not offer CloseWrite itself.
+type halfCloser struct {
+	net.Conn
+	under *layer4.Connection
+}
+
+func (hc halfCloser) CloseWrite() error { return hc.under.CloseWrite() }
 
 // UnmarshalCaddyfile sets up the Handler from Caddyfile tokens. Syntax:
 //
